@@ -28,7 +28,7 @@ class TypeFacts:
         self.aliases: dict[str, ast.expr] = {}
         self.returns: dict[str, list[ast.expr | None]] = {}
         self.fresh_list: dict[str, list[bool]] = {}
-        self.consts: dict[str, dict[str, ast.Constant]] = {}
+        self.consts: dict[str, dict[str, ast.expr]] = {}
         rebound: set[str] = set()
         for mod, t in trees.items():
             binds: dict[str, list[ast.AST]] = {}
@@ -57,8 +57,8 @@ class TypeFacts:
                     self.fresh_list.setdefault(n.name, []).append(_returns_fresh_list(n))
             cs = {}
             for name, ss in binds.items():
-                if len(ss) == 1 and isinstance(ss[0], (ast.Assign, ast.AnnAssign)) and isinstance(ss[0].value, ast.Constant) \
-                        and isinstance(ss[0].value.value, (int, float, str)) and not isinstance(ss[0].value.value, bool):
+                if len(ss) == 1 and isinstance(ss[0], (ast.Assign, ast.AnnAssign)) and ss[0].value is not None \
+                        and _plain_constant(ss[0].value):
                     cs[name] = ss[0].value
             self.consts[mod] = cs
         for mod in self.consts:
@@ -115,6 +115,15 @@ class TypeFacts:
             return True
         fl = self.fresh_list.get(name or "")
         return bool(fl) and all(fl)
+
+
+def _plain_constant(v: ast.expr) -> bool:
+    """a number or string, or a (nested) tuple of them -- immutable, so every reader sees the same value"""
+    if isinstance(v, ast.Constant):
+        return isinstance(v.value, (int, float, str)) and not isinstance(v.value, bool)
+    if isinstance(v, ast.Tuple):
+        return bool(v.elts) and all(_plain_constant(e) for e in v.elts)
+    return False
 
 
 def _is_optional(a: ast.Subscript) -> bool:
@@ -436,7 +445,10 @@ def _subst_consts(tree: ast.Module, consts: dict[str, ast.Constant], imported: d
                 if not isinstance(c, ast.AST):
                     continue
                 if isinstance(c, ast.Name) and isinstance(c.ctx, ast.Load) and c.id in table and c.id not in shadow:
-                    k = ast.copy_location(ast.Constant(table[c.id].value), c)
+                    import copy as _copy
+                    k = _copy.deepcopy(table[c.id])
+                    for y in ast.walk(k):
+                        ast.copy_location(y, c)
                     stats.append((c.id, c.lineno))
                     if isinstance(v, list):
                         v[i] = k
